@@ -99,6 +99,7 @@ def pavexc_env(home):
 
 WORKSPACE_TOML = """[workspace]
 members = ["app", "sdk", "driver"]
+exclude = ["extdep"]
 resolver = "3"
 
 [workspace.dependencies]
